@@ -259,18 +259,47 @@ public:
 
         auto re = QRegularExpression(pattern);
         auto dir = QDir(baseDir());
-        auto result = QStringList();
+
+        // One entry per rotated file: when it was last written, and the date and the
+        // numeric index its name carries
+        struct RotatedFile
+        {
+            QDateTime modified;
+            QString date;
+            int index;
+            QString path;
+        };
+        QList<RotatedFile> files;
+
+        const int datePos = baseName.size() + 1;
+        const int indexPos = datePos + 11;
 
         const auto entries = dir.entryList(QDir::Files, QDir::Name);
         for (const QString &entry : entries) {
             if (re.match(entry).hasMatch()) {
-                result.append(dir.filePath(entry));
+                const int indexEnd = entry.indexOf(QLatin1Char('.'), indexPos);
+                const auto index = entry.mid(indexPos, indexEnd < 0 ? -1 : indexEnd - indexPos);
+                const auto path = dir.filePath(entry);
+                files.append({ QFileInfo(path).lastModified(), entry.mid(datePos, 10),
+                               index.toInt(), path });
             }
         }
 
-        std::sort(result.begin(), result.end(), [](const QString &a, const QString &b) {
-            return QFileInfo(a).lastModified() < QFileInfo(b).lastModified();
+        // Oldest first. Files whose modification times are equal (coarse file system
+        // timestamps, rotations in quick succession) are ordered by the date and the
+        // numeric index in their names - by name alone ".10" would sort before ".9"
+        std::sort(files.begin(), files.end(), [](const RotatedFile &a, const RotatedFile &b) {
+            if (a.modified != b.modified)
+                return a.modified < b.modified;
+            if (a.date != b.date)
+                return a.date < b.date;
+            return a.index < b.index;
         });
+
+        auto result = QStringList();
+        for (const auto &file : files) {
+            result.append(file.path);
+        }
 
         return result;
     }
